@@ -556,6 +556,9 @@ func exploreC13Invariance(t *testing.T, seed uint64, idx int, tier string, sink 
 	}
 	pl := c13Plan(r, r.U64(), ra, rb, tgt, prof)
 	pl.Meta["arm"] = "invariance"
+	if r.Chance(1, 4) {
+		pl.Meta["debuglog"] = "1" // the generating run was started with -d
+	}
 	var did []string
 	id := 20
 	addOp := func(o Op) { o.ID = id; id++; pl.Ops = append(pl.Ops, o) }
@@ -563,7 +566,11 @@ func exploreC13Invariance(t *testing.T, seed uint64, idx int, tier string, sink 
 	cur, curProf := tgt.Clone(), prof.Clone()
 	var sibs []*EntitySpec
 	for i := 0; i < n; i++ {
-		switch r.Intn(9) {
+		switch r.Intn(10) {
+		case 9: // the later runs are started with another verbosity (-d, -v, neither) than the one that
+			// generated the artifacts
+			addOp(Op{K: "loglevel", Arg: Pick(r, []string{"debug", "info", "none", "debug"}), Label: "log-level-change"})
+			did = append(did, "log-level-change")
 		case 8: // the machine's time zone changes; a validity without from yields the same certificate
 			// (up to run-relative dates) in every zone, so its hash must not move
 			addOp(Op{K: "tz", Arg: Pick(r, c04Zones), Label: "tz-change"})
